@@ -5,3 +5,31 @@ Local Open Scope Z_scope.
 Definition search_factor : Z := 4.
 (* util.go readerContainsAny: halflen := bufflen / D *)
 Definition search_half_div : Z := 2.
+(* os.O_RDONLY on the build platform *)
+Definition o_rdonly : Z := 0.
+(* os.O_WRONLY on the build platform *)
+Definition o_wronly : Z := 1.
+(* os.O_RDWR on the build platform *)
+Definition o_rdwr : Z := 2.
+(* os.O_APPEND on the build platform *)
+Definition o_append : Z := 1024.
+(* os.O_CREATE on the build platform *)
+Definition o_create : Z := 64.
+(* os.O_EXCL on the build platform *)
+Definition o_excl : Z := 128.
+(* os.O_SYNC on the build platform *)
+Definition o_sync : Z := 1052672.
+(* os.O_TRUNC on the build platform *)
+Definition o_trunc : Z := 512.
+(* os.ModeDir *)
+Definition mode_dir : Z := 2147483648.
+(* os.ModeTemporary *)
+Definition mode_temporary : Z := 268435456.
+(* memmap.go const chmodBits *)
+Definition chmod_bits : Z := 13631999.
+(* memmap.go OpenFile: read-only handle iff flag&MASK == 0 *)
+Definition memfs_access_mask : Z := 3.
+(* readonlyfs.go OpenFile: EPERM iff flag&MASK != 0 *)
+Definition readonly_mask : Z := 1603.
+(* mem/file.go FileInfo.Size of a directory *)
+Definition dir_size : Z := 42.
